@@ -237,8 +237,7 @@ func main() {
 	}
 	stats, err := drv.ExploreAll(factory, plans, time.Now().Add(10*time.Minute))
 	if err != nil {
-		fmt.Println("INFRA:", err)
-		os.Exit(2)
+		drv.InfraExit("C13", factory, stats, err, 2000)
 	}
 	var execs, steps int64
 	for _, st := range stats {
